@@ -1,6 +1,6 @@
 """Texts for MANIFEST.json: what each registered check claims, and why the rest is not claimed."""
 
-HOOK_COMMITS = ["3736b75"]
+HOOK_COMMITS = ["3736b75", "91e7521"]
 
 STD_NOTE = ("Trusted base: Kani 0.68 MIR->GOTO translation, CBMC 6.11 + CaDiCaL, Kani's allocator model; "
             "S1 fnv::FnvHashMap replaced by an association list; T1 core::slice::sort::unstable::sort replaced by insertion sort; "
